@@ -12,7 +12,7 @@ func init() {
 		},
 		Rule:      "a case is either (1) the protocol buffer file of one service of a generated design (gRPC profile: 1-2 services x 1-3 unary methods; payloads and results that are absent, primitive, arrays, maps, inline objects or object user types over all primitives, nested messages, arrays, maps and primitive aliases with validations and defaults; request metadata mappings; shuffled and sparse field numbers), or (2) one call of a method through the generated gRPC client and server (real protobuf messages from protoc-gen-go, real grpc-go over an in-memory connection) with a valid payload and result, a single-fault invalid payload, or a single-fault invalid result, or (3) one scripted call of a streaming method of the fixed gRPC stream matrix design (server-streaming, client-streaming, bidirectional; up to 10 interleaved messages, one of them possibly a single-fault invalid message). Non-trivial = a .proto file of a service with methods; a call whose types involve a nested message, array, map, alias, recursion or metadata, or any mutant. Distinct = SHA-256 of the case.",
 		LevelText: "Generated-input search. Proto files: parsed by the verifier's own proto3 parser (anything outside proto3 is a violation), checked for duplicate field names/numbers, illegal numbers, unresolvable types, duplicate rpcs, validated again by the protobuf runtime (protodesc.NewFile), and compared with the design: one rpc per method with the designed streaming direction, every attribute present under its designed field number with the scalar type/repeated/map shape of its design type, metadata attributes absent from the message. Calls: the payload the service method receives and the result the caller receives must match what was sent (model-aware comparison), metadata attributes must travel in the request metadata, a payload violating a constraint must be rejected before the service method runs, and a violating result must not be returned as a success. Streams: both ends follow the generated script; every message arrives equal and in order in its direction, the end of a direction is seen as io.EOF by the other end, CloseAndRecv returns the final result, and an invalid streamed message is refused by the generated server's Recv instead of being handed to the service.",
-		LevelNote: "Trusts the Go tool chain, grpc-go, the protobuf runtime and protoc-gen-go (real message code), the verifier's protoc stand-in for parsing and for the service stubs (template following protoc-gen-go-grpc's classic output), the harness and rapid. Streaming methods are exercised on a fixed design only (gRPC stream matrix); random designs are unary. OneOf unions are exercised. Response header/trailer metadata are not exercised at run time (they do not compile at this commit: finding C01-grpc-response-metadata): for them only the proto-file rules apply when generated.",
+		LevelNote: "Trusts the Go tool chain, grpc-go, the protobuf runtime and protoc-gen-go (real message code), the verifier's protoc stand-in for parsing and for the service stubs (template following protoc-gen-go-grpc's classic output), the harness and rapid. Streaming methods are exercised on a fixed design only (gRPC stream matrix); random designs are unary. OneOf unions are exercised. Response header/trailer metadata are not exercised at run time (they do not compile at this commit: finding C01-grpc-response-metadata): for them only the proto-file rules apply when generated. A quarter of the unary calls hand the generated client a context that already carries outgoing metadata of the caller.",
 		Technique: "property-based testing (rapid): generated designs and values; round trip through generated client and server over real gRPC; independent proto3 parser + protobuf runtime as validity oracle; single-fault mutation for the rejection clause; scripted streaming calls with per-message equality in order",
 		Assumptions: []string{
 			"unset is not expressible through the generated Go structs for attributes with defaults (non-pointer fields): such attributes always get an explicit value",
